@@ -10,6 +10,9 @@
 #include "hlib.h"
 #include <algorithm>
 #include <tuple>
+#include <csetjmp>
+#include <csignal>
+#include <unistd.h>
 using namespace hl;
 
 static const size_t HP = MEMORY_LEAK_HASH_TABLE_SIZE;
@@ -71,8 +74,8 @@ struct Recorder : public MemoryLeakFailure
     void fail(char* s) override { if (strstr(s, "Deallocating non-allocated memory")) nonalloc++; else other++; }
 };
 
-static std::vector<std::string> fileNames;
-static const char* fileName(unsigned id) { while (fileNames.size() <= id) { fileNames.push_back("f" + hx(fileNames.size()) + ".c"); } return fileNames[id].c_str(); }
+static std::vector<std::string> fileNames;     // filled once in main: the detector keeps the pointers
+static const char* fileName(unsigned id) { if (id >= fileNames.size()) { fprintf(stderr, "harness: file id\n"); exit(3); } return fileNames[id].c_str(); }
 
 struct Entry { long long addr; unsigned long size; unsigned number; unsigned file; int line; int kind; };
 static void parseReport(const char* txt, Out& o)
@@ -100,9 +103,16 @@ static void parseReport(const char* txt, Out& o)
     for (auto& e : es) o << hz(e.addr) << hx(e.size) << hx(e.number) << hx(e.file) << hz(e.line) << hx((unsigned)e.kind);
 }
 
+// a list walk that never ends (a cycle made by a broken unlink) must not stall the whole run: the scenario is abandoned after
+// 2 s and its observation ends with the item HANG, which no oracle accepts
+static sigjmp_buf hangJmp;
+static void onAlarm(int) { siglongjmp(hangJmp, 1); }
+
 int main()
 {
     MemoryLeakWarningPlugin::turnOffNewDeleteOverloads();
+    signal(SIGALRM, onAlarm);
+    for (unsigned i = 0; i < 256; i++) fileNames.push_back("f" + hx(i) + ".c");
     stride = (8 * HP + CAP + 7) & ~(size_t)7;
     arena = (char*)malloc(NSLOTS * stride + 64);
     arena = (char*)(((uintptr_t)arena + 15) & ~(uintptr_t)15);
@@ -116,6 +126,8 @@ int main()
         bool sep = t.u() != 0;
         nodepool_used = 0;
         Recorder rec;
+        if (sigsetjmp(hangJmp, 1)) { PlatformSpecificRealloc = savedRealloc; o << "HANG"; o.flush(); continue; }
+        alarm(2);
         MemoryLeakDetector* det = new MemoryLeakDetector(&rec);
         int cur = 0;    // 0 disabled, 1 enabled, 2 checking: what the harness asked for last
         // the report/failure text accumulates in one buffer that only startChecking() empties (its size limit is property C14):
@@ -173,6 +185,7 @@ int main()
             }
             else { fprintf(stderr, "harness: bad op %s\n", op.c_str()); exit(3); }
         }
+        alarm(0);
         delete det;
         o.flush();
     }
